@@ -692,7 +692,7 @@ sxround_dur_cocl(dt_sexy_t t, struct dt_dtdur_s dur, bool nextp)
 
 
 static struct dt_dt_s
-dt_round(struct dt_dt_s d, struct dt_dtdur_s dur, bool nextp)
+__dt_round(struct dt_dt_s d, struct dt_dtdur_s dur, bool nextp)
 {
 	switch (d.typ) {
 	default:
@@ -771,6 +771,25 @@ Epoch date/times have no divisions to round to.");
 		break;
 	}
 	return d;
+}
+
+static struct dt_dt_s
+dt_round(struct dt_dt_s d, struct dt_dtdur_s dur, bool nextp)
+{
+	if (dt_sandwich_p(d) && UNLIKELY(d.t.hms.h == 24)) {
+		/* D T24:00:00 is 00:00:00 of the day after, round that
+		 * and keep the spelling if nothing moves */
+		struct dt_dt_s nrm = dt_milfup(d);
+		struct dt_dt_s res;
+
+		nrm.t.carry = 0;
+		res = __dt_round(nrm, dur, nextp);
+		if (res.d.u == nrm.d.u && res.t.u == nrm.t.u) {
+			return d;
+		}
+		return res;
+	}
+	return __dt_round(d, dur, nextp);
 }
 
 
